@@ -95,6 +95,14 @@ func checkC19() fw.Check {
 					add(c19Req{minTTL: 1, maxTTL: mx, port: 443, proto: proto, method: "syn", targetForm: "v4", e2eOnly: true})
 				}
 			}
+			// IPv6 targets with the TTL extremes (quick tier too): every legal TTL must be probeable in both families,
+			// as a path run and as an end-to-end-only request (a single probe at the last TTL)
+			for _, proto := range []string{"udp", "icmp"} {
+				for _, w := range [][2]int{{1, 255}, {250, 255}, {255, 255}, {1, 1}, {128, 129}, {251, 251}} {
+					add(c19Req{minTTL: w[0], maxTTL: w[1], port: 33434, proto: proto, targetForm: "v6"})
+					add(c19Req{minTTL: 1, maxTTL: w[1], port: 33434, proto: proto, targetForm: "v6brport", e2eOnly: true})
+				}
+			}
 			if tier == "thorough" {
 				// the full product of the grid (2.2 million requests), plus a seeded quarter of it as end-to-end-only requests
 				rr := rand.New(rand.NewSource(seed*31 + 7))
